@@ -568,3 +568,48 @@ def match_object_rule(m, rid):
                     r.fail("%s|match-deref|%s" % (q, A.text(n)), "%s dereferences the match object `%s` (`%s`) without having tested it: for text the "
                            "pattern does not match this is an AttributeError that escapes the parser" % (q, n.value.id, A.text(n)), m.loc(f, n))
     return r
+
+
+# =================================================================================================
+# an optional keyword that the matcher recognises is recorded in the result
+# =================================================================================================
+def optional_keyword_rule(m, rid):
+    r = RuleResult(rid, "an optional leading keyword that a matcher skips when present is recorded in what it returns (otherwise the printer "
+                        "must always print it or never print it: a token of the source is invented or dropped)")
+    r.floor = 1
+    n_kw = 0
+    for (path, q), f in sorted(m.funcs.items()):
+        if "/tests/" in path or "/two/" not in path or not q.endswith(".match"):
+            continue
+        for n in A.body_nodes(f.node):
+            if not isinstance(n, ast.If):
+                continue
+            t = n.test
+            if not (isinstance(t, ast.Compare) and len(t.ops) == 1 and isinstance(t.ops[0], ast.Eq) and isinstance(A.const(t.comparators[0], None), str)):
+                continue
+            x = t.left
+            if isinstance(x, ast.Call) and isinstance(x.func, ast.Attribute) and x.func.attr in ("upper", "lower"):
+                x = x.func.value
+            if not (isinstance(x, ast.Subscript) and isinstance(x.slice, ast.Slice) and x.slice.lower is None):
+                continue
+            n_kw += 1
+            base = A.text(x.value)
+            if any(isinstance(s_, (ast.Return, ast.Raise)) for s_ in n.body + n.orelse):
+                continue
+            body_sets = {A.text(s_.targets[0]): s_ for s_ in n.body if isinstance(s_, ast.Assign)}
+            else_sets = {A.text(s_.targets[0]): A.text(s_.value) for s_ in n.orelse if isinstance(s_, ast.Assign)}
+            # "skip the keyword if it is there": the same variable gets the remainder in one branch and the whole text in the other
+            # (or there is no else and the variable is the text itself)
+            skipping = [v for v in body_sets if (else_sets.get(v) == base) or (not n.orelse and v == base)]
+            if not skipping:
+                continue
+            r.instances += 1
+            recorded = set(body_sets) - set(skipping)
+            r.ob(bool(recorded), "%s: optional %r recorded in %s" % (q, A.const(t.comparators[0]), sorted(recorded)))
+            if not recorded:
+                r.fail("%s|optional-keyword|%s" % (q, A.const(t.comparators[0])), "%s skips the optional keyword %r when it is present and records "
+                       "nothing about it: the printer cannot know whether the source had it, so it invents or drops the token "
+                       "(`procedure a` inside an interface block is regenerated as `MODULE PROCEDURE a`)" % (q, A.const(t.comparators[0])),
+                       m.loc(f, n))
+    r.notes.append("keyword-prefix tests inspected: %d" % n_kw)
+    return r
